@@ -150,6 +150,19 @@ pub struct Phase {
     pub threads: usize,
 }
 
+/// coverage-guided campaign (libFuzzer target under /verif/fuzz) attached to a property's thorough tier
+pub struct FuzzSpec {
+    pub target: &'static str,
+    pub secs: u64,
+    pub jobs: usize,
+    /// writes seed inputs into the directory
+    pub corpus: fn(&Path, u64),
+    /// does this crash output belong to the property (a target may serve several properties)?
+    pub is_mine: fn(&str) -> bool,
+    /// signature of a crash output
+    pub signature: fn(&str) -> String,
+}
+
 pub struct Property {
     pub id: &'static str,
     pub rule: &'static str,
@@ -218,7 +231,7 @@ fn is_known(known: &[KnownFinding], prop: &str, sig: &str) -> Option<KnownFindin
         .cloned()
 }
 
-pub fn run_property(prop: &Property, cfg: &RunCfg) -> i32 {
+pub fn run_property(prop: &Property, cfg: &RunCfg, fuzz: &[FuzzSpec]) -> i32 {
     let t0 = Instant::now();
     let known = load_known_findings();
     let acc = Mutex::new(Acc::default());
@@ -393,6 +406,26 @@ pub fn run_property(prop: &Property, cfg: &RunCfg) -> i32 {
         );
     }
 
+    // ---- coverage-guided campaigns (thorough tier only; targets are built by ./check)
+    let mut fuzz_reports: Vec<Value> = vec![];
+    if cfg.tier == Tier::Thorough && cfg.only_phase.is_none() {
+        for spec in fuzz {
+            match run_fuzz_campaign(prop.id, spec, cfg, &known) {
+                Ok((report, mut viols, known_hits)) => {
+                    fuzz_reports.push(report);
+                    violations.append(&mut viols);
+                    let mut a = acc.lock().unwrap();
+                    for k in known_hits {
+                        *a.known_hits.entry(k).or_default() += 1;
+                    }
+                }
+                Err(e) => {
+                    eprintln!("[{}] fuzz campaign {} not run: {e}", prop.id, spec.target);
+                    fuzz_reports.push(json!({"target": spec.target, "skipped": e}));
+                }
+            }
+        }
+    }
     // write replay files + print verdict lines
     let a = acc.into_inner().unwrap();
     let mut viol_lines = vec![];
@@ -464,6 +497,7 @@ pub fn run_property(prop: &Property, cfg: &RunCfg) -> i32 {
             "exclusions": a.excluded,
             "phases": a.per_phase,
             "known_findings_hit": a.known_hits,
+            "fuzz_campaigns": fuzz_reports,
         },
         "assumptions": prop.assumptions,
         "wall_s": t0.elapsed().as_secs_f64(),
@@ -628,6 +662,102 @@ fn run_gen_thread(
     out
 }
 
+fn fuzz_bin(target: &str) -> PathBuf {
+    verif_root().join("target/fuzz/x86_64-unknown-linux-gnu/release").join(target)
+}
+
+type FuzzOutcome = (Value, Vec<Violation>, Vec<String>);
+
+fn run_fuzz_campaign(prop_id: &str, spec: &FuzzSpec, cfg: &RunCfg, known: &[KnownFinding]) -> Result<FuzzOutcome, String> {
+    let bin = fuzz_bin(spec.target);
+    if !bin.exists() {
+        return Err(format!("{} not built", bin.display()));
+    }
+    let t0 = Instant::now();
+    let work = verif_root().join(format!("target/fuzz_work/{}_{}_{}", prop_id, spec.target, std::process::id()));
+    let corpus = work.join("corpus");
+    let arts = work.join("artifacts");
+    std::fs::create_dir_all(&corpus).map_err(|e| e.to_string())?;
+    std::fs::create_dir_all(&arts).map_err(|e| e.to_string())?;
+    (spec.corpus)(&corpus, cfg.seed);
+    let n_seed = std::fs::read_dir(&corpus).map(|r| r.count()).unwrap_or(0);
+    let mut children = vec![];
+    for j in 0..spec.jobs {
+        let out = std::fs::File::create(work.join(format!("job{j}.log"))).map_err(|e| e.to_string())?;
+        let child = std::process::Command::new(&bin)
+            .arg(&corpus)
+            .arg(format!("-max_total_time={}", spec.secs))
+            .arg("-len_control=0")
+            .arg("-max_len=40000")
+            .arg("-timeout=30")
+            .arg("-rss_limit_mb=4096")
+            .arg("-reload=1")
+            .arg("-print_final_stats=1")
+            .arg(format!("-seed={}", (cfg.seed % 1_000_000) * 16 + j as u64 + 1))
+            .arg(format!("-artifact_prefix={}/job{j}_", arts.display()))
+            .env("RUST_BACKTRACE", "0")
+            .env("ASAN_OPTIONS", "detect_odr_violation=0:abort_on_error=0")
+            .stdout(std::process::Stdio::null())
+            .stderr(out)
+            .spawn()
+            .map_err(|e| e.to_string())?;
+        children.push(child);
+    }
+    for mut c in children {
+        let _ = c.wait();
+    }
+    let mut execs = 0u64;
+    let mut cov = 0u64;
+    let mut crash_outputs: Vec<(PathBuf, String)> = vec![];
+    for j in 0..spec.jobs {
+        let log = std::fs::read_to_string(work.join(format!("job{j}.log"))).unwrap_or_default();
+        for l in log.lines() {
+            if let Some(v) = l.strip_prefix("stat::number_of_executed_units:") {
+                execs += v.trim().parse::<u64>().unwrap_or(0);
+            }
+            if let Some(i) = l.find(" cov: ") {
+                let c: u64 = l[i + 6..].split(' ').next().unwrap_or("0").parse().unwrap_or(0);
+                cov = cov.max(c);
+            }
+        }
+        if let Some(i) = log.find("Test unit written to ") {
+            let path = log[i + "Test unit written to ".len()..].lines().next().unwrap_or("").trim().to_string();
+            crash_outputs.push((PathBuf::from(path), log.clone()));
+        }
+    }
+    let mut viols = vec![];
+    let mut known_hits = vec![];
+    let mut foreign = 0;
+    for (art, log) in &crash_outputs {
+        // the crash text: from the first "panicked at" / "ERROR: " line
+        let start = log.find("panicked at").or_else(|| log.find("ERROR: ")).unwrap_or(0);
+        let text: String = log[start..].chars().take(1500).collect();
+        if !(spec.is_mine)(&text) {
+            foreign += 1;
+            continue;
+        }
+        let sig = (spec.signature)(&text);
+        if is_known(known, prop_id, &sig).is_some() {
+            known_hits.push(sig);
+            continue;
+        }
+        let bytes = std::fs::read(art).unwrap_or_default();
+        let replay = json!({
+            "property": prop_id, "phase": format!("fuzz:{}", spec.target), "kind": "fuzz", "target": spec.target, "seed": cfg.seed,
+            "tape_nonzero": bytes.len(), "artifact_hex": crate::tape::hex(&bytes), "signature": sig, "message": text,
+        });
+        viols.push(Violation { phase: format!("fuzz_{}", spec.target), fail: Fail::new(sig, text.lines().take(2).collect::<Vec<_>>().join(" | "), json!({})), replay });
+    }
+    let n_corpus = std::fs::read_dir(&corpus).map(|r| r.count()).unwrap_or(0);
+    let report = json!({
+        "target": spec.target, "engine": "libFuzzer (cargo-fuzz, -O, AddressSanitizer)", "jobs": spec.jobs, "seconds_per_job": spec.secs, "executions": execs, "edge_coverage": cov,
+        "seed_inputs": n_seed, "corpus_after": n_corpus, "crashes_for_this_property": viols.len(), "crashes_of_other_properties_oracle": foreign, "wall_s": t0.elapsed().as_secs_f64(),
+    });
+    eprintln!("[{prop_id}] fuzz {:<10} {:>10} execs  cov {:>6}  corpus {:>5}  {:>6.1}s  crashes {}", spec.target, execs, cov, n_corpus, t0.elapsed().as_secs_f64(), viols.len());
+    let _ = std::fs::remove_dir_all(&work);
+    Ok((report, viols, known_hits))
+}
+
 /// run-length form: [[value, repeat], ...] keeps replay files small (shrunk tapes are mostly zeros)
 fn compress_tape(t: &[u16]) -> Value {
     let mut out: Vec<Value> = vec![];
@@ -749,6 +879,35 @@ pub fn replay_property(prop: &Property, cfg: &RunCfg, file: &Path) -> i32 {
     let body = std::fs::read_to_string(file).expect("cannot read replay file");
     let v: Value = serde_json::from_str(&body).expect("replay file is not JSON");
     let phase_name = v["phase"].as_str().unwrap_or("");
+    if v["kind"].as_str() == Some("fuzz") {
+        let target = v["target"].as_str().unwrap_or("");
+        let bin = fuzz_bin(target);
+        if !bin.exists() {
+            eprintln!("fuzz target {} is not built (./check builds it for --replay of fuzz files)", bin.display());
+            return 2;
+        }
+        let dir = cfg.scratch_root.join("replay");
+        std::fs::create_dir_all(&dir).ok();
+        let f = dir.join("artifact");
+        std::fs::write(&f, crate::tape::unhex(v["artifact_hex"].as_str().unwrap_or(""))).ok();
+        let o = std::process::Command::new(&bin).arg(&f).env("RUST_BACKTRACE", "0").output();
+        let _ = std::fs::remove_dir_all(&cfg.scratch_root);
+        return match o {
+            Ok(o) if o.status.success() => {
+                println!("replay: property {} holds on {}", prop.id, file.display());
+                0
+            }
+            Ok(o) => {
+                eprintln!("{}", String::from_utf8_lossy(&o.stderr).chars().take(2000).collect::<String>());
+                println!("VIOLATION property={} replay={}", prop.id, file.display());
+                1
+            }
+            Err(e) => {
+                eprintln!("cannot run {}: {e}", bin.display());
+                2
+            }
+        };
+    }
     let Some(phase) = prop.phases.iter().find(|p| p.name == phase_name) else {
         eprintln!("no phase named {phase_name} in property {}", prop.id);
         return 2;
